@@ -156,7 +156,8 @@ theorem c03_roundtrip (H : Bytes → Bytes) (t : Cell) (wf : TreeWF H t) (ty : T
   rw [hm] at htb hfb
   refine ⟨_, htb, hfb, ?_, ?_⟩
   · intro form hf
-    simp only [fromBocAny, forms_inputBytes rest hwf form hf, Option.bind_some, hfb]
+    simp only [fromBocAny, fromBocAnyG, forms_inputBytes rest hwf form hf, Option.bind_some]
+    exact hfb
   · intro inp hi
     simp only [List.mem_cons, List.not_mem_nil, or_false] at hi
     simp only [BocParse.fromBocInput, forms_bocInit rest hwf inp hi, Option.bind_some, hfb]
@@ -170,7 +171,9 @@ theorem c03_entry_cell (H : Bytes → Bytes) (t : Cell) (wf : TreeWF H t) (ty : 
       ∀ form ∈ [Sum.inl bs, Sum.inr (hexEnc bs), Sum.inr (b64Enc bs)], cellOne H form = some (t, p.info) := by
   obtain ⟨bs, h1, _, h3, _⟩ := c03_roundtrip H t wf ty p hb nc fuel ord h o hv hn hP
   refine ⟨bs, h1, fun form hf => ?_⟩
-  simp [cellOne, h3 form hf]
+  have := h3 form hf
+  simp only [fromBocAny] at this
+  simp [cellOne, cellOneG, this]
 
 /-- `Slice.one_from_boc` (= `cells[0].begin_parse()`) on the three input forms returns the untouched image of the root: all
 its data bits and all its references (the child trees), nothing consumed. -/
@@ -183,7 +186,9 @@ theorem c03_entry_slice (H : Bytes → Bytes) (kind : Int) (bits : Bits) (refs :
       ∀ form ∈ [Sum.inl bs, Sum.inr (hexEnc bs), Sum.inr (b64Enc bs)], sliceOne H form = some ⟨bits, refs⟩ := by
   obtain ⟨bs, h1, _, h3, _⟩ := c03_roundtrip H _ wf ty p hb nc fuel ord h o hv hn hP
   refine ⟨bs, h1, fun form hf => ?_⟩
-  simp [sliceOne, h3 form hf, beginParse]
+  have := h3 form hf
+  simp only [fromBocAny] at this
+  simp [sliceOne, sliceOneG, this, beginParse, beginParseG]
 
 /-- `Builder.one_from_boc` (= `cells[0].to_builder()`) on the three input forms: for an ORDINARY root it returns the builder
 holding exactly the root's data bits and references (`end_cell()` gives the root back); for an EXOTIC root it raises
@@ -200,9 +205,11 @@ theorem c03_entry_builder (H : Bytes → Bytes) (kind : Int) (bits : Bits) (refs
   obtain ⟨bs, h1, _, h3, _⟩ := c03_roundtrip H _ wf ty p hb nc fuel ord h o hv hn hP
   obtain ⟨l1, l2⟩ := root_limits H kind bits refs wf ty
   refine ⟨bs, h1, fun form hf => ?_⟩
+  have h3' := h3 form hf
+  simp only [fromBocAny] at h3'
   by_cases hk : kind = kOrdinary
-  · simp [builderOne, h3 form hf, toBuilder, hk, c03_store_cell bits refs l1 l2]
-  · simp [builderOne, h3 form hf, toBuilder, hk]
+  · simp [builderOne, builderOneG, h3', toBuilder, toBuilderG, hk, c03_store_cell bits refs l1 l2]
+  · simp [builderOne, builderOneG, h3', toBuilder, toBuilderG, hk]
 
 /-! ## Non-vacuity
 
